@@ -236,7 +236,6 @@ theorem wfItem_runS {rest : Bytes} {l : Nat} (hw : wfItem rest = .ok l) (f pos :
   rw [runS_shift, runS_fuel_irrel (f' := rest.length + 1) hf (by omega), hw]
   rfl
 
-def sumLens (cs : List (Nat × Nat)) : Nat := (cs.map (·.2)).sum
 
 /-- `k ≥ 1` consecutive items below a `defn k` frame at the bottom of the stack. -/
 theorem runS_defn_seq : ∀ (k : Nat) (rest : Bytes) (pos : Nat) (cs : List (Nat × Nat)) (f : Nat),
